@@ -32,7 +32,7 @@ def env_for(d):
 
 
 def names_or_all(names):
-    return names or sorted(n for n in os.listdir(SEEDED) if os.path.isdir(os.path.join(SEEDED, n)) and n != "obsolete")
+    return names or sorted(n for n in os.listdir(SEEDED) if os.path.isdir(os.path.join(SEEDED, n)) and n not in ("obsolete", "rejected"))
 
 
 def cmd_import(src, pid):
